@@ -12,13 +12,16 @@ HARNESSES = [
     dict(name="c17a", kind="asan", srcs=["harness/c17/c17a_serialize.cpp"]),
     dict(name="c17afz", kind="fuzz", srcs=["harness/c17/c17a_serialize.cpp"], defs=["-DVERIF_LIBFUZZER"]),
     dict(name="c09", kind="asan", srcs=["harness/c09/c09_alloc.cpp"]),
+    dict(name="c09s", kind="sched", srcs=["harness/c09/c09s_perbackend.cpp"]),
     dict(name="c11", kind="asan", srcs=["harness/c11/c11_graphs.cpp", "harness/c11/c11_graphs_b.cpp", "harness/c11/c11_graphs_c.cpp"]),
+    dict(name="c11s", kind="sched", srcs=["harness/c11/c11s_transpose.cpp"]),
     dict(name="c11fz", kind="fuzz", srcs=["harness/c11/c11_graphs.cpp", "harness/c11/c11_graphs_b.cpp", "harness/c11/c11_graphs_c.cpp"], defs=["-DVERIF_LIBFUZZER"]),
     dict(name="c12a", kind="asan", srcs=["harness/c12/c12a_filegraph.cpp"]),
     dict(name="c12afz", kind="fuzz", srcs=["harness/c12/c12a_filegraph.cpp"], defs=["-DVERIF_LIBFUZZER"]),
     dict(name="c14b", kind="asan", srcs=["harness/c14/c14b_assoc.cpp"]),
     dict(name="c14bfz", kind="fuzz", srcs=["harness/c14/c14b_assoc.cpp"], defs=["-DVERIF_LIBFUZZER"]),
     dict(name="c05", kind="sched", srcs=["harness/c05/c05_barrier.cpp"]),
+    dict(name="c04h", kind="native", srcs=["harness/c04/c04h_history.cpp"]),
     dict(name="c16", kind="native", srcs=["harness/c16/c16_pstl.cpp"]),
     dict(name="c16e1", kind="sched", srcs=["harness/c16/c16_pstl.cpp"], defs=["-DC16_E1"]),
     dict(name="c15", kind="native", srcs=["harness/c15/c15_reduce.cpp"]),
@@ -51,10 +54,11 @@ PROPS = {
                      "InsertBag iterated with at least as many active threads as filled it, when the known finding is listed"],
     ),
     "C04": dict(
-        variants={"sched": ["galois_shmem"]},
-        units=[dict(type="rc", harness="c04", quick=60000, thorough=800000)],
-        engine="gsched+rapidcheck",
-        technique="property-based testing: rapidcheck-generated work-passing histories (per-thread mailboxes, PRF fan-out to arbitrary threads incl. ones that already reported idle) driven through the real ring and tree detectors under controlled schedules; ledger oracle for soundness, epoch-bounded announcement for liveness, re-arming across rounds with changing thread counts",
+        variants={"sched": ["galois_shmem"], "native": ["galois_shmem"]},
+        units=[dict(type="rc", harness="c04", quick=60000, thorough=800000),
+               dict(type="rc", harness="c04h", quick=240000, thorough=3600000, workers=8)],
+        engine="gsched+rapidcheck; rapidcheck history generator (in-process)",
+        technique="stateful property-based testing: (c04h) rapidcheck-generated HISTORIES -- lists of thread ids, each entry advancing that pool thread by one step of the executor loop (process one unit | empty pop | localTermination) with the detector called on the real pool threads one step at a time, followed by fair sweeps; (c04) rapidcheck-generated work-passing histories (per-thread mailboxes, PRF fan-out to arbitrary threads incl. ones that already reported idle) driven through the real ring and tree detectors under controlled schedules; ledger oracle for soundness, epoch-bounded announcement for liveness, re-arming across rounds with changing thread counts",
         rule=("cases = (ring|tree detector, topology, 1..4 consecutive rounds with thread counts 1..8, initial units per thread, fan-out, "
               "depth, delays, work seed, schedule); non-trivial = >=2 threads AND a unit was delivered to another thread after that "
               "thread had already reported idle in the round; distinct = hash of the case"),
@@ -129,7 +133,7 @@ PROPS = {
         units=[dict(type="rc", harness="c06", quick=24000, thorough=360000),
                dict(type="rc", harness="foreach", quick=10000, thorough=150000, exclude=["C01/BulkSynchronous+conflicts/lost-item"]),
                dict(type="rc", harness="c05", quick=10000, thorough=150000),
-               dict(type="rc", harness="c03", quick=10000, thorough=150000, exclude=["C03/do_all-InsertBag/fewer-active-threads"])],
+               dict(type="rc", harness="c03", quick=10000, thorough=150000, exclude=["C03/do_all-InsertBag/fewer-active-threads", "C03/runDedicated-after-setActiveThreads/stale-active-count"])],
         engine="gsched+rapidcheck",
         technique="property-based testing: generated lock scripts (SimpleLock, PtrLock incl. unlock_and_set/clear/setValue/CAS, PaddedLock, ThreadRWlock, lock_guard) and generated programs around every promised edge under controlled schedules; mutual-exclusion counter oracle + vector-clock happens-before tracker that honours each operation's declared memory_order, applied to harness payload cells",
         rule=("unit c06: (lock kind, 2..6 threads, 1..12 operations per thread, critical-section delays, schedule); non-trivial = lock handed "
@@ -176,10 +180,11 @@ PROPS = {
         assumptions=["programs create only work of strictly later level than their own", "as C01"],
     ),
     "C09": dict(
-        variants={"fuzz": ["galois_shmem"]},
-        units=[dict(type="rc", harness="c09", quick=24000, thorough=360000, enumerate=True)],
-        engine="rapidcheck + fork per case (ASan+UBSan)",
-        technique="model-based property testing: rapidcheck-generated allocation histories (alloc/free/clear, sizes at every class boundary, operations assigned to threads, cross-thread frees, storage create/destroy/move) executed in a fresh forked child per case against every Galois allocator; shadow interval map + per-block canaries re-verified after every step; real-thread rounds for the concurrent part",
+        variants={"fuzz": ["galois_shmem"], "sched": ["galois_shmem"]},
+        units=[dict(type="rc", harness="c09", quick=24000, thorough=360000, enumerate=True),
+               dict(type="rc", harness="c09s", quick=20000, thorough=300000)],
+        engine="rapidcheck + fork per case (ASan+UBSan) + gsched",
+        technique="model-based property testing: rapidcheck-generated allocation histories (alloc/free/clear, sizes at every class boundary, operations assigned to threads, cross-thread frees, storage create/destroy/move) executed in a fresh forked child per case against every Galois allocator; shadow interval map + per-block canaries re-verified after every step; real-thread rounds for the concurrent part; the per-thread-storage offset allocator (lock-free bump pointer + locked free list) additionally under the gsched schedule explorer with generated per-thread allocate/release lists on an almost full page",
         rule=("cases = (allocator family, topology 4|2,2|1,1,1,1|3,1, threads 1..4, operation list in the tail); non-trivial = a free/clear "
               "followed by a later allocation of the same size class, or a cross-thread free, or a size on a class boundary (<=1, 2^k, "
               "2^k+-1, within a few bytes of the 2 MB page); distinct = hash of the case"),
@@ -207,11 +212,12 @@ PROPS = {
                      "removed nodes are never re-added; parallel edges of one pair carry equal data; where the implementation may legally pick either of several parallel edges the case is marked ambiguous and only structure is compared"],
     ),
     "C11": dict(
-        variants={"fuzz": ["galois_shmem"]},
-        units=[dict(type="rc", harness="c11", quick=24000, thorough=360000, workers=4),
-               dict(type="fuzz", harness="c11fz", quick=24000, thorough=360000, workers=4, max_len=300)],
-        engine="rapidcheck (in-process, real threads, ASan+UBSan) + libFuzzer",
-        technique="property-based testing: rapidcheck-generated graphs (edge list in the case tail, written to .gr by the harness' own writer), edge-data types, 17 layout/construction kinds, option combinations, 1..16 construction threads on a 2x8 synthetic topology and a script of derived operations; oracle = reference adjacency lists built from the case, compared with a complete enumeration through the public graph API; libFuzzer explores the same decoder coverage-guided on graphs up to 64 nodes",
+        variants={"fuzz": ["galois_shmem"], "sched": ["galois_shmem"]},
+        units=[dict(type="rc", harness="c11", quick=24000, thorough=360000, workers=4, confirm_runs=40),
+               dict(type="fuzz", harness="c11fz", quick=24000, thorough=360000, workers=4, max_len=300, confirm_runs=40),
+               dict(type="rc", harness="c11s", quick=12000, thorough=180000)],
+        engine="rapidcheck (in-process, real threads, ASan+UBSan) + libFuzzer + gsched",
+        technique="property-based testing: rapidcheck-generated graphs (edge list in the case tail, written to .gr by the harness' own writer), edge-data types, 17 layout/construction kinds, option combinations, 1..16 construction threads on a 2x8 synthetic topology and a script of derived operations; oracle = reference adjacency lists built from the case, compared with a complete enumeration through the public graph API; libFuzzer explores the same decoder coverage-guided on graphs up to 64 nodes; the atomic-counter based builders (per-thread construction from a file, in-place transpose, in-edge construction by reference and by value) additionally run under the gsched schedule explorer with plain-access preemption on graphs up to 9 nodes",
         rule=("cases = (layout/construction kind, edge data void|uint32|int64|float|12-byte struct, option bits (NUMA blocked/interleaved, "
               "no-lockable, out-of-line locks, ids, file edge type ...), threads 1..16, node count 0..3000, data mode, up to four derived "
               "operations, edge triples); non-trivial = some node has >=2 out-edges AND (parallel edges, or a self loop, or an isolated "
@@ -221,7 +227,8 @@ PROPS = {
                     "(in-edges of CSR+CSC / in-out graphs, in-place transpose, sortEdgesByDst / by data / sortAllEdgesByDst, in-edge sorting, "
                     "findEdge, findEdgeSortedByDst, findInEdge, second constructFrom on the same object, per-thread local ranges) are "
                     "compared with the model: permutations of the same multiset, exact membership answers, ranges that partition the nodes. "
-                    "Construction interleavings are sampled with real threads, not controlled. Exploration only."),
+                    "Construction interleavings are sampled with real threads in c11/c11fz and controlled by gsched in c11s (transpose, "
+                    "constructIncomingEdges, readGraph of the CSR layouts). Exploration only."),
         level_note="trusted: the harness' .gr writer (harness/common/grfile.h, independent of the library) and the adjacency-list model; real threads (no schedule control) with a schedule-independent oracle",
         assumptions=["graphs up to 3000 nodes / 20000 edges", "constructFrom(arrays) cannot carry void edge data (no such container type): those kinds use uint32",
                      "LC_InOut_Graph over LC_Linear_Graph is built for void and uint32 edge data only"],
